@@ -56,6 +56,7 @@ structure OptInfo where
   printCb : Bool := false
   freeCb : Bool := false
   func : FuncKind := .none
+  simple : Bool := false                  -- CFG_SIMPLE_*: the value cell is a variable of the caller (see `mkOpt`)
 deriving DecidableEq, Repr, Inhabited
 
 /-- the caller's declaration tree (`cfg_opt_t[]` ending in `CFG_END()`) -/
